@@ -189,6 +189,9 @@ def build_lib(flags, compiler="g++", tag="lib"):
     r = repo_path()
     cpps = sorted(
         os.path.join(r, "dispenso", f) for f in os.listdir(os.path.join(r, "dispenso")) if f.endswith(".cpp")
+    ) + sorted(
+        os.path.join(r, "dispenso", "detail", f)
+        for f in os.listdir(os.path.join(r, "dispenso", "detail")) if f.endswith(".cpp")
     )
     hh = file_hash(repo_sources(), " ".join(flags) + compiler)
     d = os.path.join(BUILD, "lib", "%s_%s" % (tag, hh))
@@ -201,7 +204,7 @@ def build_lib(flags, compiler="g++", tag="lib"):
         procs = []
         objs = []
         for c in cpps:
-            o = os.path.join(d, os.path.basename(c)[:-4] + ".o")
+            o = os.path.join(d, ("detail_" if os.sep + "detail" + os.sep in c else "") + os.path.basename(c)[:-4] + ".o")
             objs.append(o)
             cmd = [compiler, "-std=c++14", "-c", c, "-o", o, "-pthread", "-D%s=1" % GUARD] + flags + repo_includes()
             procs.append((c, subprocess.Popen(cmd, stdout=subprocess.PIPE, stderr=subprocess.STDOUT, text=True)))
